@@ -14,6 +14,7 @@ func init() {
 			c.Clause("C15-D1/D2/D3")
 			ruleWrapCallsOnce(c)
 			ruleHasParamsIsPresence(c)
+			ruleReportsErrorExact(c)
 			ruleDecodeTargets(c)
 			ruleOmitTagWholeTag(c)
 			ruleUnmarshalParamsErrors(c)
@@ -36,6 +37,8 @@ func init() {
 			c.Clause("C16-D1")
 			rulePositional(c)
 			rulePositionalNames(c)
+			ruleErrorMappersKeepFailure(c, c.M.HandlerPkg, "ERR.propagate")
+			ruleDecoderConfiguration(c)
 			ruleArgsMarshal(c)
 			ruleWrapSnapshot(c)
 			c.Clause("C16-D2")
